@@ -258,9 +258,12 @@ class Pass1(CompilePass):
     def process_var_clause_pre(self, node):
         # "name AS type" is a statement only for the grammar of TYPE
         # blocks; anywhere else it must be part of a declaration
-        owners = (DimStmt, TypeBlock, SubBlock, FunctionBlock,
-                  DeclareStmt)
-        if not isinstance(node.parent, owners):
+        parent = node.parent
+        if isinstance(parent, (SubBlock, FunctionBlock, DeclareStmt)):
+            is_owned = any(node is p for p in parent.params)
+        else:
+            is_owned = isinstance(parent, (DimStmt, TypeBlock))
+        if not is_owned:
             raise CompileError(
                 EC.ILLEGAL_IN_TYPE_BLOCK,
                 'Field declaration outside TYPE block',
